@@ -127,7 +127,9 @@ Step ==
             /\ viol' = viol \cup {<<l, "Panic">>}
             /\ UNCHANGED <<dTerm, dVote, dLast, dLog, lastApplied, appliedAt, submitted, acked>>
        [] t.ev = "final" ->
-            /\ viol' = viol \cup (IF Contents(t.items) = Fold(Empty, appliedAt, 1) THEN {} ELSE {<<l, "ContentsVsLog">>})
+            \* judged for a node that has applied everything any node applied; a node that is still catching up when the
+            \* run ends is a matter of convergence (the end event), and its dump races with its apply loop
+            /\ viol' = viol \cup (IF (\E i \in DOMAIN appliedAt : i > t.applied) \/ Contents(t.items) = Fold(Empty, appliedAt, 1) THEN {} ELSE {<<l, "ContentsVsLog">>})
             /\ UNCHANGED <<dTerm, dVote, dLast, dLog, lastApplied, appliedAt, submitted, acked>>
        [] t.ev = "end" ->
             /\ viol' = viol \cup (IF t.converged = 1 THEN {} ELSE {<<l, "NoConverge">>})
